@@ -15,3 +15,9 @@ func (b *Buffer) VerifState() (last int32, chunk uint32, bytes []byte, headers [
 	}
 	return b.last, uint32(b.chunk), bytes, headers
 }
+
+// IsString tells whether the operation the reader is positioned on carries a variable-size
+// (string / bytes) value rather than a fixed-size one.
+func (r *Reader) IsString() bool {
+	return r.i0 >= 3 && r.headString == r.i0-3 && r.buffer[r.headString]&isString != 0
+}
